@@ -54,6 +54,14 @@ type Sched struct {
 	// LockYieldPermille is the probability (in 1/1000) that a shim lock
 	// acquisition becomes a scheduling point.
 	LockYieldPermille int
+	// UnlockYieldPermille is the probability (in 1/1000) that a shim lock
+	// RELEASE becomes a scheduling point (opt-in per plan, default 0: then
+	// nothing is drawn and schedules are exactly what they were without it).
+	// A release followed by lock-free code (e.g. an update moved out of its
+	// critical section) is otherwise never interleaved with the goroutines
+	// the release wakes.
+	UnlockYieldPermille int
+	unlockRng           *Rand
 	// Sticky is the probability (in 1/1000) of continuing with the goroutine
 	// that ran last when it is parked again (run-to-completion bias).
 	StickyPermille int
@@ -90,6 +98,7 @@ func NewSched(seed uint64, tape []int) *Sched {
 	s := &Sched{
 		rng:        NewRand(Mix(seed, "sched")),
 		lockRng:    NewRand(Mix(seed, "lock")),
+		unlockRng:  NewRand(Mix(seed, "unlock")),
 		Tape:       tape,
 		MaxSteps:   20000000,
 		MaxVirtual: 6 * time.Hour,
@@ -106,6 +115,7 @@ func (s *Sched) Reseed(seed uint64) {
 	s.mu.Lock()
 	s.rng = NewRand(Mix(seed, "sched"))
 	s.lockRng = NewRand(Mix(seed, "lock"))
+	s.unlockRng = NewRand(Mix(seed, "unlock"))
 	s.tapePos = 0
 	s.Rec = nil
 	s.lastGid = 0
@@ -217,6 +227,23 @@ func LockYield(site string) {
 	}
 	s.mu.Lock()
 	hit := s.lockRng.Intn(1000) < s.LockYieldPermille
+	s.mu.Unlock()
+	if hit {
+		s.LockYlds++
+		s.yield(site)
+	}
+}
+
+// UnlockYield is called by the lock shims after a release; it becomes a
+// scheduling point with the run's configured probability (its own choice
+// stream, so that runs without it are not perturbed).
+func UnlockYield(site string) {
+	s := cur.Load()
+	if s == nil || s.UnlockYieldPermille == 0 || !s.running.Load() {
+		return
+	}
+	s.mu.Lock()
+	hit := s.unlockRng.Intn(1000) < s.UnlockYieldPermille
 	s.mu.Unlock()
 	if hit {
 		s.LockYlds++
